@@ -192,6 +192,24 @@ def bounded(tier, seed):
         ok = np.allclose(first["x"], np.tile(np.array([0.75, -0.25]), (nch, 1))) and np.all((first["y"] >= 2.0) & (first["y"] < 3.0)) and len(set(first["y"].tolist())) == nch
         col.add(None if ok else {"sig": "native::initial::first_sample_chain_count", "what": f"{nch} chain(s): first recorded sample x={first['x'].tolist()}, y={first['y'].tolist()} is not the supplied initial value "
                                  "(0.5, -0.5), 2.0 after the configured jitter (x + 0.25, y + U[0,1) per chain)", "input": {"num_chains": nch}})
+    # 5a'. a jitter function for a key that NO kernel samples (a fixed scale dispersed over the chains, tracked through positions_included)
+    try:
+        b = gs.EngineBuilder(seed=s, num_chains=3)
+        b.set_epochs(mk_epochs())
+        b.set_model(gs.DictInterface(lambda st: -0.5 * jnp.sum(st["x"] ** 2) / st["s"] ** 2))
+        b.set_initial_values({"x": jnp.array([0.5, -0.5]), "s": jnp.float32(1.0)})
+        b.add_kernel(gs.RWKernel(["x"], initial_step_size=0.8))
+        b.positions_included = ["s"]
+        b.set_jitter_fns({"x": lambda key, v: v + 0.25, "s": lambda key, v: v + 2.0 + jax.random.uniform(key, v.shape)})
+        b.show_progress = False
+        e = b.build()
+        e.sample_next_epoch()
+        first = {k: np.asarray(v)[:, 0] for k, v in e.get_results().get_samples().items()}
+        ok = np.allclose(first["x"], np.tile(np.array([0.75, -0.25]), (3, 1))) and np.all((first["s"] >= 3.0) & (first["s"] < 4.0)) and len(set(first["s"].tolist())) == 3
+        col.add(None if ok else {"sig": "native::initial::jitter_for_a_key_without_kernel", "what": f"jitter functions for x (sampled) and s (no kernel, tracked): first recorded sample x={first['x'].tolist()}, s={first['s'].tolist()}; "
+                                 "the supplied values after the configured jitter are x=(0.75, -0.25), s in [3, 4) distinct per chain", "input": {"jitter_keys": ["x", "s"], "kernel_keys": ["x"]}})
+    except Exception as e_:
+        col.add({"sig": f"native::initial::exception::{type(e_).__name__}", "what": str(e_)[:200], "input": {"scenario": "jitter for a key without kernel"}})
     # 5b. jitter switched off again (None / empty mapping) or replaced on the same builder: "the configured jitter" is the last configuration
     for off in (None, {}):
         b = builder(s, jitter=jit)
@@ -226,7 +244,7 @@ def bounded(tier, seed):
         "evaluations": col.evals, "distinct_nontrivial": col.evals,
         "rule": ("BOUNDED: real EngineBuilder/Engine, 3 chains, two RW kernels on a Gaussian dict model, schedule INIT/FAST(4)/BURNIN(2)/POST(6, thinning 2): rerun equality, int seed vs "
                  "PRNGKey, uniqueness of the keys received by every kernel call - init_state, transition, start_epoch, end_epoch, tune, end_warmup - (key-logging kernel), chain 0 unchanged when other chains' initial values change and chains 1,2 unchanged when chain 0's does (NUTS/HMC with step-size search at initialisation), a tracked key derived inside extract_position (softmax over the value) recorded per chain from the first sample on, first "
-                 f"recorded sample = initial value + jitter for replicated and per-chain states over two consecutive build() calls, and for 1, 2 and 5 chains; jitter functions switched off (None or an empty mapping) or replaced on the same builder. base seed {s}. Determinism of XLA is an assumption."),
+                 f"recorded sample = initial value + jitter for replicated and per-chain states over two consecutive build() calls, and for 1, 2 and 5 chains; a jitter function for a tracked key that no kernel samples; jitter functions switched off (None or an empty mapping) or replaced on the same builder. base seed {s}. Determinism of XLA is an assumption."),
         "samples": [{"seed": s, "schedule": SCHED}],
         "exhaustive": False, "violations": col.violations,
     }
